@@ -95,11 +95,14 @@ CHECKS = {
                   "lexer, registry and process boundaries",
         text="Real lexer / pipeline / command line are run on an exhaustively enumerated small-string space, lexeme "
              "soups, very long runs of unmatched lexemes, generated complete files, all-or-sampled token prefixes and "
-             "bounded token edits of them, and hostile byte contents on disk. A logical clock (function entries + loop "
+             "bounded token edits of them, files assembled from declaration-shaped pieces, nesting 50-1500 levels deep in nine shapes, "
+             "a directive x argument grid (names also taken from the rule class), hostile byte contents on disk and command-line "
+             "runs with pseudo-terminals on the standard streams. A logical clock (function entries + loop "
              "back-edges inside norminette) decides termination against a calibrated budget; any exception other than "
              "the controlled fatal parse error, any traceback or exit status outside {0,1} is a violation.",
         note="Budget B(n)=2e6+15000n steps (>=60x the calibrated maximum, calibration re-measured each run); wall clock "
-             "never decides. Damaged-input crash sites have a long tail: only the sites reached by this workload are judged.",
+             "never decides (the deep-nesting family, where the tool is cubic in the depth, gets a budget quadratic in the depth; an "
+             "overrun there is inconclusive). Damaged-input crash sites have a long tail: only the sites reached by this workload are judged.",
         design="§3.1 M-STEP, §4.5"),
     "C11": dict(
         technique="runtime monitors on the lexer (M-LEX token spans, M-DIAG lexical diagnostics) against a reference grammar of C constants",
